@@ -728,6 +728,11 @@ def c18_catalogue(ctx):
         if ep != "accessibility":
             for v in ("1", "true", "0", "false", "TRUE", "yes", ""): var(alternatives=v)
         var(foo="bar"); var(**{"": "x"}); var(origin_=None)
+        # bytes that are not UTF-8 (a JSON writer that throws on them must not leave the request unanswered), and valid multi-byte UTF-8
+        for hb in ("%ff", "%c3%28", "%e2%82", "%c3%a9"):
+            var(scenario_id=hb); var(scenario_id=K + hb); var(time_of_trip=hb); var(time_of_trip="500" + hb); var(foo=hb); var(**{"k" + hb: "1"})
+            var(**{("place" if ep == "accessibility" else "origin"): hb}); var(max_travel_time=hb)
+            if ep != "accessibility": var(alternatives=hb)
         urls += ["/v2/%s" % ep, "/v2/%s?" % ep, "/v2/%s/?%s" % (ep, url_of(ep, base).split("?")[1]), "/v2/%s?&&&" % ep, "/v2/%s?=&=&" % ep,
                  "/v2/%s?%s" % (ep, "&".join("k%d=v" % i for i in range(300))), url_of(ep, base) + "&" + "x" * 20000]
     return urls
